@@ -94,6 +94,8 @@ func backpressureSetup(s *rt.Sim, tier string) func() {
 		peer := newRawPeer(pair.B)
 		// probes
 		inHandler := 0
+		handledBytes := 0
+		admittedBytes, lastCounter, maxHeld := 0, 0, 0
 		maxPending := 0
 		overLimit := ""
 		rt.S.SetProbe(func(name string, args ...any) {
@@ -114,8 +116,21 @@ func backpressureSetup(s *rt.Sim, tier string) func() {
 			if lim > 0 && v > lim+inHandler && overLimit == "" {
 				overLimit = fmt.Sprintf("pending received bytes %d exceed the limit %d of state id %d (message in handler: %d bytes)", v, lim, stId, inHandler)
 			}
+			// independent of the counter's absolute value: an increase of the
+			// counter is an admission of that many bytes; what was admitted and
+			// whose handler has not returned is what the endpoint really holds
+			if lastCounter >= 0 && v > lastCounter {
+				admittedBytes += v - lastCounter
+				held := admittedBytes - handledBytes
+				if held > maxHeld {
+					maxHeld = held
+				}
+				if lim > 0 && held > lim+inHandler && overLimit == "" {
+					overLimit = fmt.Sprintf("%d bytes of admitted messages are unprocessed (admitted %d, handled %d), limit %d of state id %d (message in handler: %d bytes; the library's own counter says %d)", held, admittedBytes, handledBytes, lim, stId, inHandler, v)
+				}
+			}
+			lastCounter = v
 		})
-		handledBytes := 0
 		// external cross-check, not trusting the counter
 		maxMsg := 0
 		extViolation := ""
@@ -209,7 +224,7 @@ func backpressureSetup(s *rt.Sim, tier string) func() {
 				rt.Violate("C13/backpressure-deadlock", "%s: %d of %d messages handled 24 simulated hours after the consumer resumed", desc, len(ep.handled), n)
 				return
 			}
-			if maxPending > limit/2 {
+			if maxHeld > limit/2 || maxPending > limit/2 {
 				rt.Hit("bp.pending-above-half-limit")
 			}
 			rt.Hit("bp.fast-valid-complete")
